@@ -290,6 +290,22 @@ def leb128_rule(repo: Repo, rep: Report, rid: str) -> None:
               "LEB128 reader no longer sign-extends with ~0 << shift", rd.loc())
 
 
+def text_array_fold_rule(repo: Repo, rep: Report, rid: str) -> None:
+    rep.rule(rid, "character arrays are written as their value: CharArray._write / WcharArray._write folded over fixed, dynamic and null-terminated "
+                  "arrays, both byte orders and values incl. a surrogate pair, a list of ints, a str and the empty value - the bytes written are the "
+                  "encoding of the value plus the terminator of a null-terminated array; nothing is padded, nothing refused over len(str) != code units")
+    from ..codecfold import fold_text_arrays
+
+    fi = repo.lookup_method("WcharArray", "_write") or repo.func("types/wchar.py", "WcharArray._write")
+    fold = fold_text_arrays(repo)
+    if fold is None:
+        rep.ok(rid, f"{fi.key}:fold", "not foldable with the evaluator's whitelist", fi.loc(), nontrivial=False)
+        return
+    bad = fold["bad"]
+    rep.check(not bad, rid, f"{fi.key}:fold", f"{fold['cases']} (array kind, value) cases agree with the reference",
+              (f"{bad[0][0]}._write ({bad[0][1]}, {bad[0][2]} array) given {bad[0][3]!r}: {bad[0][4]}, the encoding of the value is {bad[0][5]}") if bad else "", fi.loc())
+
+
 def run(repo: Repo, rep: Report, tier: str) -> None:
     call_time_rule(repo, rep, "C05.R1")
     maps_rule(repo, rep, "C05.R2")
@@ -306,13 +322,10 @@ def run(repo: Repo, rep: Report, tier: str) -> None:
     from .c11 import union_encode_rule
 
     union_encode_rule(repo, rep, "C05.R9")
+    from .c02 import default_substitution_rule
 
-
-
-
-
-
-
+    default_substitution_rule(repo, rep, "C05.R9")
+    text_array_fold_rule(repo, rep, "C05.R10")
 def codec_fold_rule(repo: Repo, rep: Report, rid: str, slots: tuple[str, ...] | None = None, only: str | None = None) -> None:
     """Shared by C01/C02/C05/C07/C08: the Int and Packed families folded through their resolved protocol slots (csa/codecfold.py)."""
     from .. import codecfold
